@@ -54,6 +54,10 @@ class Part:
     machine: typing.Any = None  # factory(ctx, record) -> RuleBasedStateMachine class; the case is the recorded history
     steps: int = 30  # stateful_step_count
     min_examples: int = 20
+    fuzz_decode: typing.Any = None  # bytes -> case: makes the part an atheris campaign (thorough tier only)
+    fuzz_runs: int = 20000  # executions per shard
+    fuzz_corpus: typing.Any = None  # callable(ctx) -> list of bytes (seed corpus), may be empty
+    fuzz_dict: typing.Sequence[str] = ()
 
 
 @dataclasses.dataclass
